@@ -1,14 +1,18 @@
 """C11 — flow-control limits are never exceeded and violations are detected."""
 import itertools
+import os
+import re
+import vlib
 from vlib import Case
 import props.streams_common as sc
 
 PROP_FILE = "Properties/C11.v"
 RULE = ("stream `streams`: as for C12, with all six initial flow-control parameters of both sides drawn from {0,1,small,large,unequal}; "
         "non-trivial = at least one LOAD after a successful WRITE and (a MAX_STREAM_DATA / MAX_DATA / HANDSHAKE after a LOAD, or a peer STREAM/RESET frame "
-        "within 2 bytes of a stream or connection limit, or beyond it). "
-        "stream `flow`: op lists over CREDIT quota, POST i n, DROP i, MAXDATA v, RCVD n on the public FlowController; non-trivial = the send limit is reached "
-        "at least once and raised afterwards, with at least one credit only partly used; distinct by hash")
+        "within 2 bytes of a stream or connection limit, or beyond it); a directed family drives a 0-RTT client (open, write, LOAD under the remembered "
+        "parameters, then a rejected or accepted HANDSHAKE whose MAX_DATA lies below / at / above what was sent, then LOADs, MAX_DATA, losses). "
+        "stream `flow`: op lists over CREDIT quota, POST i n, DROP i, MAXDATA v, RCVD n, REVISE rejected v on the public FlowController; non-trivial = the send "
+        "limit is reached at least once and raised afterwards (by MAX_DATA or a handshake), with at least one credit only partly used; distinct by hash")
 TRUSTED_BASE = ["models coq/Model/Flow.v (SendControler, Credit, RecvController) and coq/Model/StreamCtl.v (window selection in poll_open_*/try_accept_*/"
                 "Listener::poll_accept_bi_stream/revise_params, per-stream windows, the packet-loading loop with its token/cursor order, per-byte colouring of "
                 "BufMap) are hand-written; equality with the Rust is checked by streams `streams` and `flow`, not proved",
@@ -16,7 +20,15 @@ TRUSTED_BASE = ["models coq/Model/Flow.v (SendControler, Credit, RecvController)
 MODELLED = ("qbase/src/flow.rs; qrecovery/src/streams/raw.rs (try_load_data_into_once, revise_params, open/accept window choice), streams/io.rs, "
             "streams/listener.rs, send/sender.rs, send/outgoing.rs, send/writer.rs, BufMap::pick of send/sndbuf.rs (acknowledgements: C09), recv/recver.rs. "
             "qbase/src/param/core.rs only provides the six ParameterIds; qconnection's glue is replicated in the harness (3 lines).")
-ASSUMPTIONS = ["0-RTT rejection is outside c11_conn_limit (stated as the guard `no rejected handshake`): the code keeps sent_data across a rejection = open finding F34",
+ASSUMPTIONS = ["no Credit holds unused budget while a rejected 0-RTT handshake is applied (DataStreams creates and drops its Credit inside try_load_data_into, under the "
+               "output lock that revise_params takes first): c11_conn_limit carries the general statement with the slack term `ss_slack` = unused budget of Credits "
+               "taken before the rejection, c11_conn_limit_quiet the form `fresh bytes since the rejection <= MAX_DATA` for slack 0; the flow stream exercises both. "
+               "Not covered: a 1-RTT packet assembled on another thread between revise_params and revise_max_data of the TLS-finished handler (apply_parameters is "
+               "not atomic with respect to the sender task; cannot be driven by this single-threaded harness)",
+               "after a rejected 0-RTT handshake no STREAM frame sent before it is reported lost (LOSE): the streams have forgotten their sent state and "
+               "BufMap::may_loss requires sent data (debug_assert `Lost Range covered Pending parts`); nothing in qconnection discards the sent records of the "
+               "rejected 0-RTT packets, so the real connection can reach this - reported as an observation, outside the op lists generated here",
+               "a rejected handshake is checked against qbase/src/flow.rs on every run (regen: SendControler::revise_max_data must restart sent_data in its rejected branch, fail closed)",
                "packet capacities <= 65536; offset+length <= 2^62-1; an accepted 0-RTT handshake does not shrink remembered parameters",
                "an empty non-FIN STREAM frame beyond the received data advances Recv.largest without being counted (observation O1 in the report): "
                "cases containing one are excluded from the connection-level receive clause"]
@@ -26,47 +38,71 @@ MANIFEST = {
             "windows: which initial parameter feeds which window for which stream kind on which side (table theorem; the as-coded table is refuted for locally "
             "opened unidirectional streams = F12 and for peer-initiated streams touched by revise_params = F26, and proved for the repaired variant), every "
             "emitted STREAM frame ends within the stream's current window, the sum of fresh bytes never exceeds MAX_DATA, each byte is charged once, "
-            "retransmissions are free, unused credit is returned and `max_data - sent_data` never underflows (outside 0-RTT rejection), data or a final size "
+            "retransmissions are free, unused credit is returned and `max_data - sent_data` never underflows - for every history including rejected 0-RTT "
+            "handshakes, after which the count restarts from the server's new initial_max_data (as it was, sent_data was kept across the rejection and the "
+            "subtraction underflowed = F34, refuted for that variant by a concrete history and proved for the repaired one), data or a final size "
             "beyond an advertised limit gives FlowControl (refuted as coded for FIN/RESET = F13, proved for the repaired variant), advertised limits never "
             "decrease. Tied to the Rust by running the extracted models against the real DataStreams and FlowController on the same op lists each run; "
             "the clauses are also evaluated directly on the implementation's observations.",
     "note": "Trusted: Coq kernel, extraction, OCaml driver, Rust harness, Python generators/oracle. Models hand-written; correspondence checked, not proved. "
-            "F12/F13/F26/F33 are listed in known_findings.json (open = KNOWN-FINDING lines; fixed = the stream registry selects run_streams_fixed); F34 (sent_data kept across a 0-RTT rejection, `max_data - sent_data` underflows) is open.",
+            "F12/F13/F26/F33/F34 are listed in known_findings.json (open = KNOWN-FINDING lines; fixed = the stream registry selects run_streams_fixed / run_flow_fixed, "
+            "and regen() checks that qbase/src/flow.rs carries the repair of F34).",
     "technique": "Coq proof (invariants over operation lists) + differential correspondence model/implementation + direct oracle",
 }
 
 oracle = sc.oracle_for(sc.C11_CLAUSES)
 
 
-def _rejected_after_load(case):
-    loaded = False
-    for t, a in case.ops:
-        if t == 6:
-            loaded = True
-        if t == 0 and a[0] and loaded:
-            return True
-    return False
+def _body(src, start_pat):
+    i = src.find(start_pat)
+    if i < 0:
+        raise RuntimeError("pattern %r not found" % start_pat)
+    j = src.index("{", i)
+    depth, k = 0, j
+    while True:
+        if src[k] == "{":
+            depth += 1
+        elif src[k] == "}":
+            depth -= 1
+            if depth == 0:
+                return src[j + 1:k]
+        k += 1
+
+
+def revise_shape(repo=None):
+    """reads SendControler::revise_max_data from the checked-out qbase/src/flow.rs -> 'fixed' (the rejected branch restarts
+    sent_data, max_data and flow_limited, then increase_limit) | 'asis' (sent_data kept = F34); anything else raises"""
+    src = open(os.path.join(repo or vlib.REPO, "qbase/src/flow.rs")).read()
+    body = re.sub(r"//[^\n]*", "", _body(src, "fn revise_max_data(&mut self"))
+    m = re.fullmatch(r"\s*if\s+zero_rtt_rejected\s*\{(.*?)\}\s*self\.increase_limit\(max_data\);\s*", body, re.S)
+    if not m:
+        raise RuntimeError("qbase/src/flow.rs SendControler::revise_max_data is no longer `if zero_rtt_rejected { .. } self.increase_limit(max_data);`")
+    stmts = sorted(x.strip().replace(" ", "") for x in m.group(1).split(";") if x.strip())
+    if stmts == sorted(["self.sent_data=0", "self.max_data=0", "self.flow_limited=false"]):
+        return "fixed"
+    if stmts == sorted(["self.max_data=0", "self.flow_limited=false"]):
+        return "asis"
+    raise RuntimeError("qbase/src/flow.rs SendControler::revise_max_data: rejected branch %s is not one of the two modelled variants (Model/Flow.v sc_revise_with)" % stmts)
+
+
+def regen():
+    """called by ./check before the Coq build: the theorems of Properties/C11.v about rejected handshakes (and the run functions the
+    stream registry selects) are about the repaired revise_max_data; fail closed when the source is anything else"""
+    shape = revise_shape()
+    vlib.log("[C11] source configuration: revise_max_data(rejected) restarts sent_data = %s" % (shape == "fixed"))
+    if shape != "fixed":
+        raise RuntimeError("qbase/src/flow.rs SendControler::revise_max_data keeps sent_data across a rejected 0-RTT handshake (the pre-repair variant, F34): "
+                           "c11_conn_limit and the models compared (run_flow_fixed, run_streams_fixed) describe the repaired code")
 
 
 def classify(case, msg, obs):
     """only findings listed as OPEN in known_findings.json are classified; a repaired class is a violation again"""
-    import vlib
     fid = _classify(case, msg, obs)
     return fid if fid in {e["id"] for e in vlib.load_known("C11")} else None
 
 
-def classify_diff(case, io, mo):
-    """F34: the implementation panics in credit() after a 0-RTT rejection (the model's outcome is the inert None branch)"""
-    import vlib
-    if "F34" in {e["id"] for e in vlib.load_known("C11")} and _rejected_after_load(case) and io and io[-1].startswith("! panic"):
-        return "F34"
-    return None
-
-
 def _classify(case, msg, obs):
     cf = sc.cfg_of(case)
-    if msg.startswith("abnormal:") and "panic" in msg and _rejected_after_load(case):
-        return "F34"
     if msg.startswith("rejectsend:"):
         return "F33"
     if msg.startswith("progress:") and "locally-initiated uni" in msg and cf["R"].sdu > cf["R"].sdbr:
@@ -125,8 +161,13 @@ def hist(case):
         if 0 in vals:
             lab.append("%s.windows:has0" % nm)
         lab.append("%s.md:%s" % (nm, "0" if p.md == 0 else "1" if p.md == 1 else "small" if p.md <= 5000 else "large"))
+    loaded = False
     for t, a in case.ops:
         lab.append("op:" + sc.OPS[t])
+        if t == 6:
+            loaded = True
+        if t == 0 and cf["mode"] == 1:
+            lab.append("0rtt-handshake:%s%s" % ("rejected" if a[0] else "accepted", "-after-load" if loaded else ""))
     return lab
 
 
@@ -161,8 +202,62 @@ def gen_param_grid(rng, prefix, stride):
     return out
 
 
+def gen_zero_rtt(rng, prefix, n):
+    """0-RTT client: streams opened and written under the remembered parameters, LOADs (incl. a loss), then the handshake -
+    rejected with arbitrary new parameters (MAX_DATA below / at / above what was sent, stream windows and stream counts
+    smaller or larger) or accepted with parameters that are not smaller - then LOADs, MAX_DATA, a loss and more LOADs"""
+    out = []
+    for i in range(n):
+        rej = 1 if rng.random() < 0.75 else 0
+        wins = [rng.choice([200, 700, 5000]) for _ in range(3)]
+        Mp = [rng.choice([1, 2, 3, 5]), rng.choice([0, 1, 2, 3]), rng.choice([300, 1000, 1000, 2500, 10 ** 5])] + wins
+        nb = rng.randint(1, min(3, Mp[0]))
+        nu = rng.randint(0, min(2, Mp[1]))
+        sids = [sc.sid_of(0, 0, k) for k in range(nb)] + [sc.sid_of(0, 1, k) for k in range(nu)]
+        ops = [(1, [0])] * nb + [(1, [1])] * nu
+        total = 0
+        for sid in sids:
+            w = rng.choice([50, 300, 800, 1200, 3000])
+            total += w
+            ops.append((2, [sid, w]))
+        emitted = 0
+        for _ in range(rng.randint(1, 4)):
+            ops.append((6, [rng.choice([100, 400, 1200, 1200, 1500])]))
+            emitted += 1
+            if rng.random() < 0.2:
+                ops.append((15, [rng.randint(0, emitted)]))
+        sent = min(total, Mp[2])
+        if rej:
+            md = rng.choice([0, 1, sent // 2, max(0, sent - 1), sent, sent + 1, Mp[2], 2 * Mp[2], rng.randint(0, 3000)])
+            Rp = [rng.choice([0, 1, 2, 3, 5]), rng.choice([0, 1, 2, 3]), md] + [rng.choice([0, 100, 200, 700, 5000]) for _ in range(3)]
+        else:
+            Rp = [x + rng.choice([0, 0, 1, 500]) for x in Mp]
+        if rng.random() < 0.3:
+            ops.append((2, [rng.choice(sids), rng.choice([10, 500])]))
+        ops.append((0, [rej]))
+        for _ in range(rng.randint(2, 5)):
+            r = rng.random()
+            if r < 0.15:
+                ops.append((13, [Rp[2] + rng.choice([1, 100, 1000, 5000])]))
+            elif r < 0.3:
+                ops.append((10, [rng.choice(sids), rng.choice([300, 1000, 6000])]))
+            elif r < 0.4 and not rej:
+                # (after a rejection no frame of a rejected 0-RTT packet is reported lost, see ASSUMPTIONS; losses after a
+                # rejection are in the corpus cases, where the frame indices are known)
+                ops.append((15, [rng.randint(0, emitted + 2)]))
+            elif r < 0.5:
+                ops.append((2, [rng.choice(sids), rng.choice([1, 200, 2000])]))
+            ops.append((6, [rng.choice([200, 1200, 1200, 4000])]))
+            emitted += 1
+        ops += [(13, [10 ** 6]), (6, [1500]), (6, [1500])]
+        cfg = [0, 1, rng.randint(0, 1), 3, 3, 100000, 100, 100, 100] + Rp + Mp
+        out.append(Case("%s%d" % (prefix, i), list(ops), cfg))
+    return out
+
+
 def gen(rng, tier):
     cases = sc.scenario_cases()
+    cases += gen_zero_rtt(rng, "zrtt-", 800 if tier == "quick" else 15000)
     if tier == "quick":
         cases += gen_param_grid(rng, "grid-", 16)
         cases += sc.directed_cases(rng, 1200)
@@ -183,15 +278,19 @@ def mutate(rng, case, j):
 
 # ------------------------------------------------------------------------------------------------ stream `flow`
 def flow_oracle(case, obs):
-    """direct statement on the public FlowController: credit = min(quota, limit - charged); charged = posted + outstanding;
-    DATA_BLOCKED exactly when the limit is reached for the first time since it was raised; MAX_DATA never decreases; FlowControl iff over"""
+    """direct statement on the public FlowController: credit = min(quota, limit - charged); charged = fresh bytes posted + budget
+    still held by live credits, counted since the last rejected handshake (a rejection discards everything sent before it and the
+    limit restarts from the server's value), minus `slack` = the budget that Credits taken before that rejection still held at
+    that moment (0 unless a Credit is kept across a rejection); DATA_BLOCKED exactly when the limit is reached for the first time
+    since it was raised; MAX_DATA never decreases; FlowControl iff over.  The controller itself never panics: the only arithmetic
+    panic that is the caller's is returning a Credit that straddled a rejection (slack > 0), cf. c11_conn_no_underflow"""
     if len(obs) != len(case.ops):
         return "abnormal: %d observations for %d ops" % (len(obs), len(case.ops))
     limit = int(case.cfg[0])
     rlimit = int(case.cfg[1])
-    posted = 0
-    credits = []
-    blocked_reported = False
+    posted = 0            # fresh bytes posted since the last rejection
+    slack = 0
+    credits = []          # available of each credit, None once dropped
     rcvd = 0
     last_md = rlimit
     rejected = False
@@ -202,16 +301,18 @@ def flow_oracle(case, obs):
         if v == [-1]:
             break
         outstanding = sum(c for c in credits if c is not None)
+        charged = posted + outstanding - slack
+        since = " since the rejected 0-RTT handshake" if rejected else ""
         if t == 0:
             if v[0] == -3:
-                if not rejected:
-                    return "connlimit: op %d CREDIT: arithmetic panic (max_data - sent_data underflow) without a 0-RTT rejection" % k
-                return "connlimit: op %d CREDIT: arithmetic panic: after a 0-RTT rejection sent_data (%d) is above the new max_data (%d)" % (k, posted + outstanding, limit)
-            want = min(a[0], limit - posted - outstanding)
-            if want < 0 and not rejected:
-                return "connlimit: op %d: charged %d exceeds the limit %d" % (k, posted + outstanding, limit)
+                return ("connlimit: op %d CREDIT: arithmetic panic (max_data - sent_data underflow); %d bytes charged%s, limit %d"
+                        % (k, charged, since, limit))
+            if charged > limit:
+                return "connlimit: op %d: charged %d%s exceeds the limit %d" % (k, charged, since, limit)
+            want = min(a[0], limit - charged)
             if v[1] != want:
-                return "connlimit: op %d CREDIT(%d) granted %d, limit %d - posted %d - outstanding %d leaves %d" % (k, a[0], v[1], limit, posted, outstanding, want)
+                return ("connlimit: op %d CREDIT(%d) granted %d; limit %d - posted %d - held by live credits %d + slack %d%s leaves %d"
+                        % (k, a[0], v[1], limit, posted, outstanding, slack, since, want))
             credits.append(v[1])
         elif t == 1:
             if v[0] == -3:
@@ -223,6 +324,9 @@ def flow_oracle(case, obs):
                     return "connlimit: op %d POST: credit shows %d, expected %d" % (k, v[1], credits[a[0]])
         elif t == 2:
             if v[0] == -3:
+                c = credits[a[0]] if a[0] < len(credits) else None
+                if c is not None and slack > 0 and c > charged:
+                    break       # the caller returned a Credit that straddled a rejection: its budget is no longer part of the charge
                 return "connlimit: op %d DROP: arithmetic panic while returning unused credit" % k
             if v[0] == 1:
                 credits[a[0]] = None
@@ -232,6 +336,8 @@ def flow_oracle(case, obs):
             if a[0]:
                 rejected = True
                 limit = a[1]
+                posted = 0
+                slack = outstanding
             else:
                 limit = max(limit, a[1])
         elif t == 4:
@@ -246,13 +352,16 @@ def flow_oracle(case, obs):
                 if v[2] < last_md:
                     return "monotone: op %d: MAX_DATA went down from %d to %d" % (k, last_md, v[2])
                 last_md = v[2]
-        if posted > limit and not rejected:
-            return "connlimit: op %d: %d bytes posted, limit %d" % (k, posted, limit)
+        # the property itself: fresh bytes since the last rejection never exceed the limit (+ what straddling credits held then)
+        if posted > limit + slack:
+            return "connlimit: op %d: %d fresh bytes posted%s, limit %d" % (k, posted, " since the rejected handshake" if rejected else "", limit)
     return None
 
 
 def _flow_gen(rng, tier):
-    """op lists whose POSTs stay within the credit they draw from (the API's contract); everything else is free"""
+    """op lists whose POSTs stay within the credit they draw from (the API's contract); everything else is free.
+    `charged` follows the controller's sent_data; most rejections come with every credit returned first, some with a
+    Credit still alive (its later DROP may then be the caller's underflow, which ends the case)"""
     n = 4000 if tier == "quick" else 60000
     out = []
     for i in range(n):
@@ -262,6 +371,7 @@ def _flow_gen(rng, tier):
         ops = []
         credits = []
         charged = 0
+        posted = 0
         for _ in range(rng.randint(3, 25)):
             r = rng.random()
             if r < 0.3:
@@ -277,36 +387,44 @@ def _flow_gen(rng, tier):
                 else:
                     nn = rng.choice([0, credits[i2], credits[i2] // 2, rng.randint(0, credits[i2])])
                     credits[i2] -= nn
+                    posted += nn
                     ops.append((1, [i2, nn]))
             elif r < 0.75 and credits:
                 i2 = rng.randrange(len(credits) + 1)
+                ops.append((2, [i2]))
                 if i2 < len(credits) and credits[i2] is not None:
+                    if credits[i2] > charged:
+                        break       # a Credit that straddled a rejection: the DROP underflows, the case ends
                     charged -= credits[i2]
                     credits[i2] = None
-                ops.append((2, [i2]))
-            elif r < 0.87:
+            elif r < 0.85:
                 v = rng.choice([0, limit, limit + 1, limit + 100, limit * 2 + 7, rng.randint(0, 2000)])
                 limit = max(limit, v)
                 ops.append((3, [v]))
-            elif r < 0.97:
+            elif r < 0.92:
                 ops.append((4, [rng.choice([0, 1, 2, rl // 2, rl, rl + 1, rng.randint(0, 600)])]))
             else:
-                v = rng.choice([limit, limit + 50, charged + 10, charged, charged // 2, max(0, charged - 1)])
-                rej = 1 if rng.random() < 0.3 else 0
-                limit = v if rej else max(limit, v)
+                v = rng.choice([limit, limit + 50, charged + 10, charged, charged // 2, max(0, charged - 1), posted, max(0, posted - 1), 0, rng.randint(0, 600)])
+                rej = 1 if rng.random() < 0.6 else 0
+                if rej and rng.random() < 0.7:
+                    for i2, c in enumerate(credits):
+                        if c is not None and (c > 0 or rng.random() < 0.5):
+                            ops.append((2, [i2]))
+                            charged -= c
+                            credits[i2] = None
                 ops.append((5, [rej, v]))
-                if rej and v < charged:
-                    # F34 is armed (sent_data above the new limit): one more credit() shows it, then the case ends
-                    ops.append((0, [rng.choice([0, 1, 10, 1200])]))
-                    break
+                if rej:
+                    limit = v
+                    charged = 0
+                    posted = 0
+                else:
+                    limit = max(limit, v)
         out.append(Case("f%d" % i, ops, [limit0, rl]))
     return out
 
 
 def flow_classify(case, msg, obs):
-    import vlib
-    if "after a 0-RTT rejection" in msg and "F34" in {e["id"] for e in vlib.load_known("C11")}:
-        return "F34"
+    """no open finding of C11 lives on the flow stream (F34 is repaired: its class is an ordinary violation again)"""
     return None
 
 
@@ -332,9 +450,14 @@ def flow_nontrivial(case):
             credits[a[0]] = None
         elif t in (3, 5):
             v = a[-1]
-            if v > limit:
-                if reached and partly:
-                    return True
+            if v > limit and reached and partly:
+                return True
+            if t == 5 and a[0]:
+                # rejected handshake: the limit is replaced and the charge restarts; credits taken before it no longer count
+                limit = v
+                charged = 0
+                credits = [None] * len(credits)
+            elif v > limit:
                 limit = v
     return False
 
@@ -356,7 +479,7 @@ def flow_mutate(rng, case, j):
 
 STREAMS = [{
     "name": "streams", "pkg": "hr", "bin": "impl_streams",
-    "gen": gen, "oracle": oracle, "nontrivial": nontrivial, "hist": hist, "mutate": mutate, "classify": classify, "classify_diff": classify_diff,
+    "gen": gen, "oracle": oracle, "nontrivial": nontrivial, "hist": hist, "mutate": mutate, "classify": classify,
     "profiles": ("debug",), "profiles_thorough": ("debug",), "rule": RULE,
 }, {
     "name": "flow", "pkg": "hr", "bin": "impl_flow",
